@@ -23,7 +23,7 @@ PY = sys.executable
 
 def _worker(mode, payload, timeout):
     env = dict(os.environ)
-    env["PYTHONPATH"] = f"/repo:{HERE}"
+    env["PYTHONPATH"] = f"{core.REPO_DIR}:{HERE}"
     env["PYTHONDONTWRITEBYTECODE"] = "1"
     env["PYTHONHASHSEED"] = "0"
     t0 = time.time()
@@ -72,8 +72,8 @@ def _replay(module, fn, params, args, suppress_known=True, coverage=False, direc
 
 def _repo_rev():
     try:
-        sha = subprocess.run(["git", "-C", "/repo", "rev-parse", "--short", "HEAD"], capture_output=True, text=True).stdout.strip()
-        dirty = subprocess.run(["git", "-C", "/repo", "status", "--porcelain", "--untracked-files=no"], capture_output=True, text=True).stdout.strip()
+        sha = subprocess.run(["git", "-C", core.REPO_DIR, "rev-parse", "--short", "HEAD"], capture_output=True, text=True).stdout.strip()
+        dirty = subprocess.run(["git", "-C", core.REPO_DIR, "status", "--porcelain", "--untracked-files=no"], capture_output=True, text=True).stdout.strip()
         return sha + ("+dirty" if dirty else "")
     except Exception:
         return "unknown"
